@@ -226,8 +226,12 @@ class Vector():
 		if x is None:
 			return 0x9E3779B97F4A7C15
 		
+		# A nested level (a vector, list or tuple inside this one) is scrambled before it
+		# enters the outer polynomial. Otherwise both levels form one linear sum in which
+		# element (i, j) only counts through i + j, and [[1, 2], [3, 4]] collides with
+		# [[1, 3], [2, 4]] - for nested cells and for the columns of a table alike.
 		if hasattr(x, "fingerprint") and callable(getattr(x, "fingerprint")):
-			return int(x.fingerprint())
+			return hash((int(x.fingerprint()),))
 
 		if isinstance(x, float):
 			if math.isnan(x):
@@ -242,7 +246,7 @@ class Vector():
 			h = 0
 			for elem in x:
 				h = (h * B + Vector._hash_element(elem)) % P
-			return h
+			return hash((h,))
 
 		if _is_hashable(x):
 			return hash(x)
